@@ -5,6 +5,7 @@
 #include <assert.h>
 #include <ctype.h>
 #include <errno.h>
+#include <limits.h>
 #include <pthread.h>
 #include <signal.h>
 #include <stdio.h>
@@ -19,6 +20,7 @@
 #include <signal.h>
 #endif
 
+#include <algorithm>
 #include <deque>
 #include <set>
 
@@ -418,11 +420,15 @@ string Subprocess::communicate(
       }
     }
     if (events.count(this->stdin_write_fd)) {
+      // POLLOUT only guarantees that PIPE_BUF bytes can be written without
+      // blocking. Writing everything at once would block until the process has
+      // read it all, which deadlocks if the process in turn blocks writing
+      // output that we aren't reading in the meantime.
       size_t bytes_remaining = stdin_size - stdin_offset;
       ssize_t bytes_written = write(
           this->stdin_write_fd,
           reinterpret_cast<const uint8_t*>(stdin_data) + stdin_offset,
-          bytes_remaining);
+          min<size_t>(bytes_remaining, PIPE_BUF));
 
       bool should_close_stdin = false;
       if (bytes_written <= 0) {
